@@ -148,9 +148,10 @@ def family(case) -> tuple[dict, str, str]:
         return t, "t0", "depth"
     if edge == "extends":
         n = case.get("cycle", 1)
+        pre = "layouts/" if case.get("folder") else ""  # a name with a directory: the loaded template's .name is only the last component
         for i in range(n):
-            t[f"t{i}"] = "{% extends 't" + str((i + 1) % n) + "' %}" + wrap(kinds, min(d, 28), "{% block b %}x{{ block.super }}{% endblock %}")
-        return t, "t0", "inheritance"
+            t[f"{pre}t{i}"] = "{% extends '" + pre + "t" + str((i + 1) % n) + "' %}" + wrap(kinds, min(d, 28), "{% block b %}x{{ block.super }}{% endblock %}")
+        return t, pre + "t0", "inheritance"
     if edge == "macro":
         t["t0"] = "{% macro m %}a" + wrap(kinds, min(d, 28), "{% call m %}") + "{% endmacro %}{% call m %}"
         return t, "t0", "completes"
@@ -397,6 +398,7 @@ def families(tier: str, seed: int = 0):
                     if edge == "extends":
                         for cyc in (1, 2, 3):
                             yield dict(case, cycle=cyc)
+                            yield dict(case, cycle=cyc, folder=True)
                     else:
                         yield case
 
@@ -453,7 +455,7 @@ def _finish_kwargs(ctx: core.Ctx, tier: str) -> dict:
             f"scaling families prefix + unit*n + suffix ({len(SCALE_PREFIXES)} prefixes x {len(SCALE_UNITS)} units x suffixes, n doubling "
             "from 50 to 3200) must not show CPU time growing more than 5-fold per doubling once a parse takes a second. "
             "(b) render: families of 1-3 mutually recursive templates - edge in {include, render, render-for, "
-            "include-for, dynamic include, extends (cycle 1-3), macro call, block.super} placed under d nested blocks "
+            "include-for, dynamic include, extends (cycle 1-3, flat names and names with a directory component), macro call, block.super} placed under d nested blocks "
             "(" + ("two of d in {0,1,5,10,15,20,29} per (edge, kind), rotating with the seed" if tier == "quick" else "every d in 0..30") + ") of 8 block kinds and a mixed nest, strict and lax - must finish within 3e6 line "
             "events: unbounded recursion with ContextDepthError / TemplateInheritanceError in strict mode (never "
             "RecursionError, never a generic error wrapping one), bounded cases by completing, lax mode without raising. "
